@@ -11,7 +11,7 @@ EXTRA = {"C08-m2": ["C01"], "C05-m2": ["C02"], "C05-m3": ["C03", "C04"], "C20-m3
          "C07-m1": ["C02"], "C03-m2": ["C04"], "C02-m2": ["C05"], "C11-m1": ["C04"], "C11-m2": ["C02"], "C13-m1": ["C03", "C04"], "C09-m1": ["C02"], "C09-m2": ["C12"], "C01-m3": ["C08"],
          "C01-r2m3": ["C08"], "C15-r2m3": ["C03", "C07"], "C09-r2m1": ["C05", "C14"], "C07-r2m3": ["C03"], "C06-r2m3": ["C02"], "C11-r2m1": ["C09", "C16"],
          "C11-r2m3": ["C02"], "C12-r2m1": ["C18"], "C12-r2m2": ["C03"], "C13-r2m2": ["C18", "C02"], "C13-r2m3": ["C03"], "C14-r2m1": ["C09"], "C14-r2m3": ["C09", "C02"],
-         "C15-r2m1": ["C08"], "C08-r4m3": ["C07"], "C03-r6m2": ["C02"], "C03-r6m3": ["C05"], "C08-r6m3": ["C07"], "C14-r6m1": ["C19"], "C14-r6m3": ["C11", "C09"], "C17-r6m3": ["C05"], "C18-r6m2": ["C13", "C04"], "C09-r3m2": ["C14"], "C05-r5m1": ["C20"], "C12-r5m2": ["C13"], "C16-r2m1": ["C02", "C01"], "C16-r2m3": ["C03"], "C17-r2m3": ["C02", "C05"], "C18-r2m1": ["C02", "C05"], "C20-r2m2": ["C03"]}
+         "C15-r2m1": ["C08"], "C08-r4m3": ["C07"], "C03-r6m2": ["C02"], "C03-r6m3": ["C05"], "C08-r6m3": ["C07"], "C08-r6m2": ["C11"], "C14-r6m1": ["C19"], "C14-r6m3": ["C11", "C09"], "C17-r6m3": ["C05"], "C18-r6m2": ["C13", "C04"], "C09-r3m2": ["C14"], "C05-r5m1": ["C20"], "C12-r5m2": ["C13"], "C16-r2m1": ["C02", "C01"], "C16-r2m3": ["C03"], "C17-r2m3": ["C02", "C05"], "C18-r2m1": ["C02", "C05"], "C20-r2m2": ["C03"]}
 
 def sh(cmd, cwd=None, env=None, timeout=3600):
     p = subprocess.run(cmd, shell=True, cwd=cwd, env=env, stdout=subprocess.PIPE, stderr=subprocess.STDOUT, text=True, timeout=timeout, errors="replace")
